@@ -55,9 +55,20 @@ def gen_scripts(ctx, quick):
         return out
     for part in ctx.pmap(directed, range(2)):
         scripts.extend(part[:20 if quick else 150])
+    # directed: a start routine that outlasts the (shortened) start timeout - Start fails, Shutdown must still stop
+    # every module that did start, and the routine returns (with an error) only afterwards
+    F = lambda m, ok=True: {"op": "finish", "m": m, "ok": ok}
+    for deps, hung, order in [([[], [1]], 2, [1, 2]), ([[], [1], [1]], 3, [1, 2, 3]), ([[], [], [1, 2]], 3, [1, 2, 3]),
+                              ([[], [1], [2]], 3, [1, 2, 3])]:
+        n = len(deps)
+        steps = [{"op": "start", "m": 0, "ok": True}] + [F(m) for m in order] + [F(m) for m in order if m != hung] + \
+                [{"op": "expire", "m": hung, "ok": True}, {"op": "shutdown", "m": 0, "ok": True}] + \
+                [F(m) for m in reversed(order) if m != hung] * 2 + [F(hung, False)]
+        scripts.append({"n": n, "mgmt": False, "deps": deps, "enabled": [False] * n, "startTimeoutMs": 300, "steps": steps,
+                        "directed": "starttimeout"})
     rnd = random.Random(ctx.seed)
     for i, s in enumerate(scripts):
-        s["eager"] = i % 2 == 0 or bool(s.get("directed"))   # an adversarial environment: the next API call follows a return at once
+        s["eager"] = (i % 2 == 0 or bool(s.get("directed"))) and s.get("directed") != "starttimeout"   # an adversarial environment: the next API call follows a return at once
         for st in s["steps"]:
             if st["op"] == "finish" and not st["ok"]:
                 st["how"] = rnd.choice(["error", "panic"])
